@@ -26,6 +26,10 @@ func (p *Prog) timerEventArgs(st *State, desc string, args []*Expr) string {
 					return me.S
 				}
 			}
+			// a timer not (yet) held by a field: named by its value, so that
+			// "the timer stored into the field later is the one stopped" can
+			// be stated at the return
+			return "#" + args[0].Key
 		}
 	case "fsm.sendNotification":
 		return p.sendNotifEventArgs(st, desc, args)
@@ -196,7 +200,13 @@ func checkC06(c *Check) {
 			} else {
 				c.require(st.must["call:time.Timer.Stop(holdTimer)"], "C06.3 zero-hold-time", fnName, "OpenSent hold timer stopped", pos,
 					"with a negotiated hold time of zero the four-minute OpenSent hold timer is stopped before OpenConfirm (it would otherwise expire a session for which silence is legal)")
-				c.require(st.must["assign:keepAliveTimer"] && st.must["call:time.Timer.Stop(keepAliveTimer)"] && !st.may["call:fsm.drainAndResetHoldTimer"], "C06.3 zero-hold-time", fnName, "keepalive timer exists but is stopped", pos,
+				stoppedKA := st.must["call:time.Timer.Stop(keepAliveTimer)"]
+				for k, x := range st.mem {
+					if me := st.memE[k]; me != nil && me.Op == "fa" && me.S == "keepAliveTimer" && st.must["call:time.Timer.Stop(#"+x.Key+")"] {
+						stoppedKA = true // built and stopped in a local, then assigned
+					}
+				}
+				c.require(st.must["assign:keepAliveTimer"] && stoppedKA && !st.may["call:fsm.drainAndResetHoldTimer"], "C06.3 zero-hold-time", fnName, "keepalive timer exists but is stopped", pos,
 					"with hold time zero the keepalive timer is created stopped (no periodic KEEPALIVE) and the hold timer is not re-armed")
 			}
 		}
